@@ -33,6 +33,12 @@ fn merge(a: &mut Counters, b: &Counters) {
     a.completeness_obligations += b.completeness_obligations;
     a.with_autocorrect += b.with_autocorrect;
     a.with_emoji += b.with_emoji;
+    // keep a handful of samples, spread over the walkers (every 97th offer once the first few are in)
+    for v in &b.samples {
+        if a.samples.len() < 4 || (a.lists / 97) % 13 == 0 && a.samples.len() < 8 {
+            a.samples.push(v.clone());
+        }
+    }
 }
 
 pub fn run_which(report: &Report, thorough: bool, which: Which) -> Evidence {
@@ -198,7 +204,8 @@ pub fn run_which(report: &Report, thorough: bool, which: Which) -> Evidence {
     ev.set("lists_with_autocorrect_entry", t.with_autocorrect);
     ev.set("lists_with_emoji", t.with_emoji);
     ev.set("parts", serde_json::Value::Object(parts));
-    ev.set("samples", samples.take());
+    let _ = &samples;
+    ev.set("samples", t.samples.clone());
     ev.set("exhaustive", true);
     ev.set("explanation", "states = candidate lists judged (one per typed text reached, incl. the lists re-shown after a backspace), transitions = real key/backspace events; every candidate is classified by the harness from the data files, okkhor and emojicon, never from riti's own bookkeeping");
     ev.assume("okkhor (transliteration and pattern), edit-distance, emojicon tables and the data JSON files are read/called by the harness itself");
